@@ -247,7 +247,7 @@ func (l *leader) canChangeConfig() bool {
 
 func (l *leader) onWaitForStableConfig(t waitForStableConfig) {
 	if l.configs.IsStable() {
-		t.reply(l.configs.Latest)
+		t.reply(l.configs.Latest.clone()) // the caller may edit what it gets
 		return
 	}
 	l.waitStable = append(l.waitStable, t)
